@@ -29,6 +29,7 @@ type World struct {
 	cg      *CallGraph
 	modsets map[*ssa.Function]*modSet
 	locks   *lockAnalysis
+	Inlined []string // calls of new helpers expanded by normalize()
 }
 
 // brokenf ends the run with exit 2: the checker could not decide. It never prints a
@@ -132,8 +133,14 @@ func loadWorld(repo string, prop string) *World {
 	for _, f := range w.Funcs {
 		w.byName[w.FuncName(f)] = f
 	}
+	if !noNormalize {
+		w.normalize(prop)
+	}
 	return w
 }
+
+// noNormalize: set by -dump-funcs (the frozen list is made from the tree as it is).
+var noNormalize bool
 
 // FuncName gives a stable, line-free name: "pfcpiface.(*PFCPConn).Serve", "pfcpiface.(*PFCPConn).Serve$1".
 func (w *World) FuncName(f *ssa.Function) string {
